@@ -104,7 +104,7 @@ class LineReader(object):
         command = parts[0]
         args = {}
         for i in xrange(1, len(parts)):
-            n, v = parts[i].split("=")
+            n, v = parts[i].split("=", 1)
             args[n] = literal_eval(v)
         return (indent, command, args)
 
